@@ -540,7 +540,8 @@ Qed.
 (* no early break unless the gathered mass is exactly alpha: then the loop is the fill *)
 Lemma acc_exact l : forall alpha, 0 <= alpha -> Forall nonneg l ->
   forall g g2 e, g == g2 -> g <= alpha ->
-  (forall k, g + total_mass (firstn k l) < alpha -> tol alpha < alpha - (g + total_mass (firstn k l))) ->
+  (forall k, (1 <= k)%nat ->
+             g + total_mass (firstn k l) < alpha -> tol alpha < alpha - (g + total_mass (firstn k l))) ->
   accumulate alpha l g e == e + fill alpha l g2.
 Proof.
   induction l as [|[p v] r IH]; intros alpha Ha Hn g g2 e Hg Hga HK; simpl; [lra|].
@@ -555,9 +556,9 @@ Proof.
     assert (Epp : p' == p) by (rewrite Ep'; reflexivity).
     destruct (isclose (g + p') alpha) eqn:Ec.
     + apply (isclose_iff (g + p') alpha Ha ltac:(lra)) in Ec.
-      specialize (HK 1%nat). simpl in HK. lra.
+      specialize (HK 1%nat ltac:(lia)). simpl in HK. lra.
     + rewrite (IH alpha Ha Hr (g + p') (g2 + t) (e + p' * v)); [lra|lra|lra|].
-      intros k Hk. specialize (HK (S k)). simpl in HK. lra.
+      intros k _ Hk. specialize (HK (S k) ltac:(lia)). simpl in HK. lra.
   - (* the missing mass alpha - g is taken: gathered is alpha, isclose fires *)
     assert (Ep : py_min2 (alpha - g) p == t) by (rewrite Ep'; destruct Tc as [[? ?]|[? ?]]; lra).
     set (p' := py_min2 (alpha - g) p) in *.
@@ -568,9 +569,12 @@ Proof.
     rewrite Ec. rewrite (fill_zero r alpha (g2 + t)) by lra. lra.
 Qed.
 
+(* The loop tests isclose(gathered, alpha) only after it has taken from a state: the empty prefix (k = 0) is not a
+   possible break point, so the premise speaks about the non-empty prefixes only. *)
 Theorem exact_when_no_break l alpha :
   is_dist l -> 0 < alpha -> alpha <= 1 -> isclose alpha 1 = false ->
-  (forall k, let G := total_mass (firstn k (sort_by_value l)) in G < alpha -> atol + rtol * alpha < alpha - G) ->
+  (forall k, (1 <= k)%nat ->
+             let G := total_mass (firstn k (sort_by_value l)) in G < alpha -> atol + rtol * alpha < alpha - G) ->
   exists r, get_expectation l alpha = Ok r /\ r == cvar l alpha.
 Proof.
   intros Hd Ha0 Ha1 Hc HK. unfold get_expectation. rewrite Hc, (alpha_nonzero alpha Ha0).
@@ -579,8 +583,15 @@ Proof.
     [|lra|lra|].
   - assert (E : 0 + fill alpha (sort_by_value l) 0 == fill alpha (sort_by_value l) 0) by lra.
     rewrite E. reflexivity.
-  - intros k Hk. specialize (HK k). simpl in HK. unfold tol. lra.
+  - intros k Hk1 Hk. specialize (HK k Hk1). simpl in HK. unfold tol. lra.
 Qed.
+
+(* the weaker earlier form: premise for all prefixes including the empty one *)
+Corollary exact_when_no_break_all_prefixes l alpha :
+  is_dist l -> 0 < alpha -> alpha <= 1 -> isclose alpha 1 = false ->
+  (forall k, let G := total_mass (firstn k (sort_by_value l)) in G < alpha -> atol + rtol * alpha < alpha - G) ->
+  exists r, get_expectation l alpha = Ok r /\ r == cvar l alpha.
+Proof. intros Hd Ha0 Ha1 Hc HK. apply exact_when_no_break; try assumption. intros k _. apply HK. Qed.
 
 Definition example_dist : list entry := [(1 # 4, 3); (1 # 4, 1); (1 # 2, 2)].
 
@@ -595,9 +606,84 @@ Proof.
   - lra.
   - lra.
   - vm_compute. reflexivity.
-  - intros k. change (sort_by_value example_dist) with [(1 # 4, 1); (1 # 2, 2); (1 # 4, 3)].
-    destruct k as [|[|[|k]]]; simpl; unfold atol, rtol; intros H; try lra.
+  - intros k Hk1. change (sort_by_value example_dist) with [(1 # 4, 1); (1 # 2, 2); (1 # 4, 3)].
+    destruct k as [|[|[|k]]]; [lia| | |]; simpl; unfold atol, rtol; intros H; try lra.
     destruct k; simpl in H; lra.
+Qed.
+
+(* a tail fraction no larger than any single probability: the first sorted state alone fills alpha, gathered is
+   exactly alpha, no tolerance break can come before, and the result is exactly the smallest value *)
+Lemma total_firstn_nonneg (l : list entry) : Forall nonneg l -> forall k, 0 <= total_mass (firstn k l).
+Proof.
+  induction 1 as [|e r He _ IH]; intros [|k]; simpl; try lra. unfold nonneg in He. specialize (IH k). lra.
+Qed.
+
+Lemma cvar_below_smallest_probability (l : list entry) alpha :
+  is_dist l -> 0 < alpha -> Forall (fun e => alpha <= fst e) l ->
+  exists e0 r, sort_by_value l = e0 :: r /\ cvar l alpha == snd e0.
+Proof.
+  intros Hd H0 Hp. pose proof (is_dist_sort l Hd) as [Hn Ht].
+  assert (Hps : Forall (fun e : entry => alpha <= fst e) (sort_by_value l)).
+  { eapply Permutation_Forall; [symmetry; apply sort_perm|exact Hp]. }
+  unfold cvar. destruct (sort_by_value l) as [|[p v] r]; [simpl in Ht; lra|].
+  exists (p, v), r. split; [reflexivity|]. cbn [fill snd].
+  inversion Hps as [|? ? Hap _]; subst. simpl in Hap.
+  destruct (take_facts (alpha - 0) p ltac:(lra) ltac:(lra)) as (T0 & Tp & Tm & Tc).
+  set (t := Qmax 0 (Qmin (alpha - 0) p)) in *.
+  assert (Et : t == alpha) by (destruct Tc as [[? ?]|[? ?]]; lra).
+  rewrite (fill_zero r alpha (0 + t)) by lra. rewrite Et. field. lra.
+Qed.
+
+Theorem exact_below_smallest_probability (l : list entry) alpha :
+  is_dist l -> 0 < alpha -> alpha <= 1 -> isclose alpha 1 = false -> Forall (fun e => alpha <= fst e) l ->
+  exists r, get_expectation l alpha = Ok r /\ r == cvar l alpha /\
+            (forall e, In e l -> r <= snd e) /\ (exists e, In e l /\ r == snd e).
+Proof.
+  intros Hd H0 H1 Hc Hp.
+  destruct (cvar_below_smallest_probability l alpha Hd H0 Hp) as (e0 & r0 & Es & Ec).
+  pose proof (is_dist_sort l Hd) as [Hn _]. pose proof (sort_sorted l) as Hs. rewrite Es in Hn, Hs.
+  assert (Hps : Forall (fun e : entry => alpha <= fst e) (e0 :: r0)).
+  { rewrite <- Es. eapply Permutation_Forall; [symmetry; apply sort_perm|exact Hp]. }
+  destruct (exact_when_no_break l alpha Hd H0 H1 Hc) as (r & E & Er).
+  - intros k Hk1. rewrite Es. destruct k as [|k]; [lia|]. simpl.
+    inversion Hps as [|? ? Hap _]; subst. inversion Hn as [|? ? _ Hnr]; subst.
+    pose proof (total_firstn_nonneg r0 Hnr k). intros HG. lra.
+  - exists r. split; [exact E|]. split; [exact Er|]. split.
+    + intros e Hin. assert (Hin' : In e (e0 :: r0)).
+      { rewrite <- Es. eapply Permutation_in; [symmetry; apply sort_perm|exact Hin]. }
+      apply StronglySorted_inv in Hs as [_ Hf]. rewrite Er, Ec.
+      destruct Hin' as [<-|Hin']; [lra|]. rewrite Forall_forall in Hf. exact (Hf e Hin').
+    + exists e0. split; [|rewrite Er; exact Ec].
+      eapply Permutation_in; [apply sort_perm|]. rewrite Es. left. reflexivity.
+Qed.
+
+(* alpha = 1e-12 on a distribution with values of both signs: _get_expectation returns the minimum, exactly *)
+Definition example_signed : list entry := [(1 # 4, 3); (1 # 4, - (2)); (1 # 2, 1)].
+
+Lemma example_signed_is_dist : is_dist example_signed.
+Proof. split; [repeat constructor; unfold Qle; simpl; lia|]. vm_compute. reflexivity. Qed.
+
+Example tiny_alpha_example :
+  exists r, get_expectation example_signed (1 # 1000000000000) = Ok r /\ r == - (2) /\
+            r == cvar example_signed (1 # 1000000000000) /\ (forall e, In e example_signed -> r <= snd e).
+Proof.
+  destruct (exact_below_smallest_probability example_signed (1 # 1000000000000) example_signed_is_dist)
+    as (r & E & Ec & Hle & _).
+  - lra.
+  - lra.
+  - vm_compute. reflexivity.
+  - repeat constructor; unfold Qle; simpl; lia.
+  - exists r. split; [exact E|]. split; [|split; assumption].
+    vm_compute in E. injection E as <-. vm_compute. reflexivity.
+Qed.
+
+(* below atol the proved resolution bound (rtol + atol / alpha) * V exceeds the value scale V itself: there the
+   bound of [exact_or_close] says nothing, which is why the exact clause above matters *)
+Lemma resolution_bound_vacuous_below_atol alpha V :
+  0 < alpha -> alpha <= atol -> 0 <= V -> V <= (rtol + atol / alpha) * V.
+Proof.
+  intros H0 Ha HV. assert (H1 : 1 <= atol / alpha) by (apply Qle_shift_div_l; lra).
+  pose proof (Qmult_le_0_compat (rtol + atol / alpha - 1) V ltac:(unfold rtol in *; lra) HV). lra.
 Qed.
 
 (* ------------------------------------------------------------------------------------------------ 6. alpha = 1 *)
@@ -641,7 +727,7 @@ Proof.
     unfold tol in H. lra.
   - intros Hbig. rewrite Qdiv_1.
     rewrite (acc_exact l 1 ltac:(lra) Hn 0 0 0); [lra|lra|lra|].
-    intros k Hk. destruct (firstn_gap (rtol + atol) l ltac:(unfold rtol, atol; lra) Hbig k) as [E|E];
+    intros k _ Hk. destruct (firstn_gap (rtol + atol) l ltac:(unfold rtol, atol; lra) Hbig k) as [E|E];
       unfold tol; lra.
 Qed.
 
@@ -954,6 +1040,21 @@ Qed.
 (* isclose alpha 1 does hold for some alpha < 1, and fails for others *)
 Example near_one_example : isclose (999999 # 1000000) 1 = true /\ isclose (1 # 2) 1 = false.
 Proof. split; vm_compute; reflexivity. Qed.
+
+(* the exact small-alpha result on both public entry points *)
+Theorem exact_below_smallest_probability_paths n d op alpha :
+  states_fit n d -> is_dist (entries op d) -> 0 < alpha -> alpha <= 1 -> isclose alpha 1 = false ->
+  Forall (fun e => alpha <= fst e) (entries op d) ->
+  exists r, expectation_with_operator d op alpha = Ok r /\ expectation_with_bitstring n d n op alpha = Ok r /\
+            r == cvar (entries op d) alpha /\
+            (forall e, In e (entries op d) -> r <= snd e) /\ (exists e, In e (entries op d) /\ r == snd e).
+Proof.
+  intros Hf Hd H0 H1 Hc Hp.
+  destruct (exact_below_smallest_probability (entries op d) alpha Hd H0 H1 Hc Hp) as (r & E & R).
+  assert (E2 : expectation_with_bitstring n d n op alpha = Ok r).
+  { rewrite (bitstring_path n d op alpha Hf), (alpha_ok_true alpha H0 H1). exact E. }
+  exists r. split; [rewrite (paths_equal n d op alpha Hf Hc); exact E2|]. split; [exact E2|exact R].
+Qed.
 
 (* ------------------------------------------------------------------------------------------------ corollaries for the implementation *)
 (* the implementation inherits monotonicity and the range from the specification, up to the two resolutions *)
